@@ -11,7 +11,7 @@ use serde_json::{json, Value};
 pub static ENGINE: Engine = Engine {
     prop: "C10",
     level: "exploration",
-    rule: "the real rsbdd binary on EVERY formula with <= 3 (4) AST nodes over the CLI alphabet (4 leaves, not, & | => ^, if, 4 quantifier heads, lfp/gfp, 5 counting comparisons; names bound, free, both) with -t under filter Any/True/False; on every formula <= 2 (3) nodes additionally: all 15 accepted filter spellings and 6 rejected near-misses, the three input channels (--evaluate, file, stdin; byte-identical stdout), every permutation / ordered subset / one-name superset (unused name before, between, after) of its names as ordering file, -v, -t -v together under each filter, -t -b 1, -t -b 3 (byte-identical to -t), and on a 14-formula core the full cross product spelling x channel x ordering x output; ten formulas with five or six free variables and two with names of 38 and 86 characters under three filters, -v and four orderings; and the option lattice {-t,-v,-t -v} x -f x -c x -m x -b x ordering x channel on a ten-formula core against the pipeline evaluate -> -c -> -m computed through the library API; tables of and/or chains over 7..100 variables judged without a truth table (each row's cube determines the value, rows disjoint, covered assignments add up); diagrams over four variables given as Shannon-expansion text through -t: quick = every function one of whose cofactors with respect to the top variable is arbitrary while the other depends on at most one variable (both roles) plus all functions of three of the variables, thorough = EVERY one of the 65 536 functions, also under -f t, -f f and -v; a 185-member family of six-variable functions; benchmark repetition counts -b 2..2048 around powers of two on the 14-formula core with -t, -v and -t -f true. Oracle: header = reference free variables in variable order; rows pairwise disjoint cubes; result column = reference value on every assignment covered; union = all / satisfying / falsifying assignments; -v lines denote exactly the satisfying assignments. distinct = distinct (argv, stdout) pairs",
+    rule: "the real rsbdd binary on EVERY formula with <= 3 (4) AST nodes over the CLI alphabet (4 leaves, not, & | => ^, if, 4 quantifier heads, lfp/gfp, 5 counting comparisons; names bound, free, both) with -t under filter Any/True/False; on every formula <= 2 (3) nodes additionally: all 15 accepted filter spellings and 6 rejected near-misses, the three input channels (--evaluate, file, stdin; byte-identical stdout), every permutation / ordered subset / one-name superset (unused name before, between, after) of its names as ordering file, -v, -t -v together under each filter, -t -b 1, -t -b 3 (byte-identical to -t), and on a 14-formula core the full cross product spelling x channel x ordering x output; ten formulas with five or six free variables and two with names of 38 and 86 characters under three filters, -v and four orderings; and the option lattice {-t,-v,-t -v} x -f x -c x -m x -b x ordering x channel on a ten-formula core against the pipeline evaluate -> -c -> -m computed through the library API; tables of and/or chains over 7..100 variables judged without a truth table (each row's cube determines the value, rows disjoint, covered assignments add up); diagrams over four variables given as Shannon-expansion text through -t: quick = every function one of whose cofactors with respect to the top variable is arbitrary while the other depends on at most one variable (both roles) plus all functions of three of the variables, thorough = EVERY one of the 65 536 functions, also under -f t, -f f and -v; a 185-member family of six-variable functions; inputs of 4 KiB .. 4 MiB (blank, newline or comment padding) on the file and stdin channels; benchmark repetition counts -b 2..2048 around powers of two on the 14-formula core with -t, -v and -t -f true. Oracle: header = reference free variables in variable order; rows pairwise disjoint cubes; result column = reference value on every assignment covered; union = all / satisfying / falsifying assignments; -v lines denote exactly the satisfying assignments. distinct = distinct (argv, stdout) pairs",
     assumptions: &["only the |-separated cells of stdout are read (layout is free)", "reference semantics and free-variable analysis of harness/src/refl.rs; -b 0 and -g are outside the property"],
     max_shards: 64,
     run,
@@ -604,6 +604,29 @@ fn run(ctx: &mut Ctx) {
     pipeline_lattice(ctx, &mut idx);
     wide_tables(ctx, &mut idx);
     function_space_tables(ctx, &mut idx);
+    // large inputs on the file and stdin channels: 4 KiB .. 2 MiB of blanks, newlines or one
+    // long comment between (or behind) the tokens never change the table
+    for k in [12u32, 16, 20, 21] {
+        for pad in 0..3usize {
+            for (pos, ch) in [(0usize, Channel::File), (0, Channel::Stdin), (1, Channel::File), (1, Channel::Stdin)] {
+                idx += 1;
+                if !ctx.mine(idx) {
+                    continue;
+                }
+                let n = 1usize << k;
+                let filler = match pad {
+                    0 => " ".repeat(n),
+                    1 => "\n".repeat(n),
+                    _ => format!("\"{}\"", "c".repeat(n)),
+                };
+                let text = if pos == 0 { format!("a{filler}& -b | c") } else { format!("a & -b{filler}| c\n{filler}") };
+                let mut inv = base(&text, vec!["-t".into()]);
+                inv.channel = ch;
+                check_run(ctx, &inv, Mode::Table(Filter::Any));
+                ctx.count("large_inputs", 1);
+            }
+        }
+    }
     for f in BIG {
         idx += 1;
         if ctx.mine(idx) {
